@@ -23,7 +23,7 @@ type c01Scenario struct {
 	Plan []string `json:"plan,omitempty"` // preemption plan: "<file:line>#<occurrence>" wake-up statements of syncer/output.go
 }
 
-var c01Alphabet = []string{"w1", "w2", "we", "wx", "d", "df", "mf", "s1", "s0", "sb", "t1", "t2", "t3", "ts", "p", "g", "b", "bc", "f", "h", "n", "wn", "tn", "tf", "tp"}
+var c01Alphabet = []string{"w1", "w2", "we", "wx", "d", "df", "mf", "s1", "s0", "sb", "t1", "t2", "t3", "ts", "tb", "p", "g", "b", "bc", "f", "h", "n", "wn", "tn", "tf", "tp"}
 
 // c01Reduced keeps one representative per behaviour class for the deeper plans.
 var c01Reduced = []string{"w1", "w2", "df", "s1", "sb", "t2", "ts", "p", "f", "n"}
@@ -159,6 +159,36 @@ func runC01(t *testing.T, rep *mc.Reporter) {
 				cfg.DbMode = dbm
 				scn := c01Scenario{Syms: seq, Cfg: cfg, Max: 1}
 				mc.RunScenario(rep, scn, 0, budget, func(ch *mc.Chooser) mc.Result { return c01Exec(t, scn, ch) })
+			}
+		})
+	}
+	// ---- filter x transaction: source transactions whose brackets and members lie on different sides of the
+	// database black-list (tb: switches into the black-listed database before its EXEC; tb2: visits it and
+	// leaves; to after sb/tb: its MULTI lies inside, its EXEC outside), in every order with plain switches,
+	// plain writes and ordinary transactions around them. Every sequence holds at least one such transaction;
+	// the writes that follow it must still arrive (a sender left waiting for an EXEC shows as "dropped")
+	{
+		alpha, L, bound := []string{"tb", "tb2", "to", "sb", "s0", "w1", "t2"}, 3, 1
+		if tier == "thorough" {
+			alpha, L, bound = []string{"tb", "tb2", "to", "sb", "s0", "s1", "w1", "t2", "ts", "tp", "p"}, 3, 2
+		}
+		enumSeqs(alpha, L, func(seq []string) {
+			crossing := false
+			for _, s := range seq {
+				if s == "tb" || s == "tb2" || s == "to" {
+					crossing = true
+				}
+			}
+			if !crossing {
+				return
+			}
+			for _, cfg := range quickCfgs {
+				idx++
+				if idx%nshards != shard || budget.Expired() {
+					continue
+				}
+				scn := c01Scenario{Syms: append([]string{"s0"}, seq...), Cfg: cfg, Max: 1}
+				mc.RunScenario(rep, scn, bound, budget, func(ch *mc.Chooser) mc.Result { return c01Exec(t, scn, ch) })
 			}
 		})
 	}
